@@ -6,6 +6,7 @@ package middleware
 import (
 	"context"
 	"net/http"
+	"strings"
 
 	"github.com/google/uuid"
 	"go.amzn.com/lambda/extensions"
@@ -48,7 +49,9 @@ func AgentUniqueIdentifierHeaderValidator(next http.Handler) http.Handler {
 			return
 		}
 		agentID, e := uuid.Parse(agentIdentifier)
-		if e != nil {
+		// uuid.Parse is a lenient decoder: it also takes {…}, urn:uuid:…, 32 bare hex digits and any two bytes
+		// around a 36-byte form. Identifiers are only ever issued in the canonical form.
+		if e != nil || !strings.EqualFold(agentIdentifier, agentID.String()) {
 			rendering.RenderForbiddenWithTypeMsg(w, r, handler.ErrAgentIdentifierInvalid, "Invalid Lambda-Extension-Identifier")
 			return
 		}
